@@ -5,6 +5,7 @@ from gymnasium.spaces import Dict, MultiBinary
 
 from abmarl.sim.agent_based_simulation import is_agent, Agent
 from abmarl.sim.wrappers import Wrapper
+from abmarl.sim.wrappers.sar_wrapper import has_null_point
 from abmarl.tools import gym_utils as gu
 
 
@@ -272,7 +273,7 @@ class SuperAgentWrapper(Wrapper):
 
     def _get_null_obs(self, agent_id, **kwargs):
         assert agent_id in self._covered_agents, "Can only use null obs for covered agents."
-        if self.sim.agents[agent_id].null_observation:
+        if has_null_point(self.sim.agents[agent_id].null_observation):
             return self.sim.agents[agent_id].null_observation
         # if agent_id in self.null_obs:
         #     return self.null_obs[agent_id]
